@@ -6,10 +6,11 @@ from common import *
 
 ID = 'C20'
 COQ_FILES = ['Base/Mat.v', 'Base/ListX.v', 'Model/Generators.v', 'Proofs/GeneratorsBase.v', 'Proofs/Generators.v',
-             'Proofs/GeneratorsRing.v', 'Proofs/GeneratorsDeg.v', 'Properties/C20.v']
+             'Proofs/GeneratorsRing.v', 'Proofs/GeneratorsDeg.v', 'Proofs/GeneratorsTemplate.v', 'Properties/C20.v']
 THEOREMS = ['C20_makerand_dir_count', 'C20_makerand_und_sym_count', 'C20_ringlattice_bands', 'C20_ringlattice_feasible_returns',
             'C20_toeplitz_exact_K', 'C20_fractal_count', 'C20_even_count', 'C20_even_clusters_only',
-            'C20_degfixed_rowcol', 'C20_degfixed_invariant']
+            'C20_degfixed_rowcol', 'C20_degfixed_invariant', 'C20_upper_cells', 'C20_template_levels',
+            'C20_even_clusters_blocks', 'C20_fractal_clusters_blocks']
 RULE = ('every (N,K) with N<=8 and K feasible (0..N^2-N directed, 0..N(N-1)/2 undirected) for makerandCIJ_dir/_und and '
         'makeringlatticeCIJ, 3 (thorough 10) seeds each; makeevenCIJ for N in '
         '{4,8} (16 thorough), every cluster size, every K in 0..N^2-N (including K below the cluster cells: the documented '
